@@ -574,6 +574,14 @@ class Machine:
                 return
             self.eval(st.value, env, f)
         elif isinstance(st, ast.Assign):
+            if len(st.targets) == 1 and isinstance(st.targets[0], (ast.Attribute, ast.Subscript)) and isinstance(st.value, ast.BinOp) \
+                    and isinstance(st.value.op, ast.Add):
+                tt = ast.unparse(st.targets[0])
+                other = st.value.right if ast.unparse(st.value.left) == tt else (st.value.left if ast.unparse(st.value.right) == tt else None)
+                if other is not None:
+                    aug = ast.AugAssign(target=st.targets[0], op=ast.Add(), value=other)
+                    ast.copy_location(aug, st)
+                    return self.exec(aug, env, f)
             v = self.eval(st.value, env, f)
             for t in st.targets:
                 self.assign(t, v, env, f, st)
